@@ -95,7 +95,7 @@ func c01exec(c *Ctx, st *c01state, op Op, rng *rand.Rand, light bool) Ev {
 	t2 := geti(op, "t2")
 	ev := Ev{"op": name, "t": t, "t2": t2, "beta": 0, "rev": false, "k": [2]int{0, 0}, "keys": [][2]int{},
 		"res": true, "len": 0, "empty": true, "height": -1, "mag": st.mag, "full": 0, "ino": [][2]int{}, "min": [2]int{0, 0},
-		"max": [2]int{0, 0}, "stop": 0, "pre": [][2]int{}, "gets": [][5]int{}, "afters": []any{}, "others": [][7]int{}}
+		"max": [2]int{0, 0}, "stop": 0, "pre": [][2]int{}, "gets": [][5]int{}, "afters": []any{}, "others": [][7]int{}, "blind": 0}
 	guard(ev, func() {
 		var k sk
 		if has(op, "k") {
@@ -144,6 +144,13 @@ func c01exec(c *Ctx, st *c01state, op Op, rng *rand.Rand, light bool) Ev {
 		ev["beta"], ev["rev"] = st.beta[o], st.rev[o]
 		n := tr.Len()
 		ev["len"] = n
+		if geti(op, "blind") == 1 && name != "new" && name != "clone" {
+			// blind call: only the call's own result and the Len field are read before the next call
+			// (the tree must not depend on being walked or searched to put itself in order)
+			ev["blind"] = 1
+			ev["empty"] = n == 0
+			return
+		}
 		ev["empty"] = tr.IsEmpty()
 		ev["height"] = treeHeight(tr)
 		// the trees this call did not touch (an original and its clones are independent):
@@ -322,7 +329,12 @@ func c01gen(c *Ctx, label string, nh int, maxKeys int) {
 					beta = []int{0, 250, 400, 500, 600, 750}[rng.Intn(6)]
 				}
 			}
-			do := func(op Op) { h.Emit(c01exec(c, st, toAnyOp(op), rng, false)) }
+			do := func(op Op) {
+				if rng.Intn(6) == 0 {
+					op["blind"] = 1
+				}
+				h.Emit(c01exec(c, st, toAnyOp(op), rng, false))
+			}
 			if kind == "restart" && rng.Intn(2) == 0 {
 				do(Op{"op": "new", "beta": beta, "rev": rev, "keys": [][2]int{}, "mag": 0})
 				for _, k := range keys {
@@ -601,7 +613,7 @@ func c01sliceRun(h *Hist, ops []Op) {
 		}
 		h.Emit(Ev{"op": name, "t": 1, "t2": 0, "beta": beta, "rev": false, "k": k, "keys": [][2]int{}, "res": res, "len": t.Len(),
 			"empty": t.IsEmpty(), "height": -2, "mag": 1, "full": 1, "ino": ino, "min": mn, "max": mx, "stop": 0, "pre": ino,
-			"gets": gl, "afters": []any{}, "others": [][7]int{}, "panic": pan, "keytype": "slice"})
+			"gets": gl, "afters": []any{}, "others": [][7]int{}, "blind": 0, "panic": pan, "keytype": "slice"})
 	}
 	emit("new", [2]int{0, 0}, true, "")
 	for _, op := range ops[1:] {
